@@ -400,7 +400,7 @@ fn all_statement_bps(rt: &Runtime, file: u32) -> Vec<DebugBreakpoint> {
 }
 
 /// Trace run: a breakpoint on every statement of both files, Continue at every stop.
-fn trace_run(prog: &Program, cycles: u32, watchdog: Duration) -> Result<(Vec<TraceItem>, String), String> {
+fn trace_run(prog: &Program, cycles: u32, watchdog: Duration) -> Result<(Vec<TraceItem>, String, Option<String>), String> {
     let rt = build(prog)?;
     let bps0 = all_statement_bps(&rt, 0);
     let bps1 = all_statement_bps(&rt, 1);
@@ -409,9 +409,13 @@ fn trace_run(prog: &Program, cycles: u32, watchdog: Duration) -> Result<(Vec<Tra
         c.set_breakpoints_for_file(1, bps1);
     });
     let mut trace = Vec::new();
+    let mut first_state: Option<String> = None;
     loop {
         match s.wait() {
             Ok(Ev::Stop(stop)) => {
+                if trace.is_empty() {
+                    first_state = s.control.snapshot().map(|snap| state_text(&snap.storage, false));
+                }
                 if stop.reason != DebugStopReason::Breakpoint {
                     s.abandon();
                     return Err(format!("trace run: unexpected stop {}", show_stop(&stop)));
@@ -439,7 +443,7 @@ fn trace_run(prog: &Program, cycles: u32, watchdog: Duration) -> Result<(Vec<Tra
     if !errors.is_empty() {
         return Err(format!("trace run: cycle errors {errors:?}"));
     }
-    Ok((trace, state_text(rt.storage(), false)))
+    Ok((trace, state_text(rt.storage(), false), first_state))
 }
 
 /// StepIn-only run for one thread: pause that thread, then StepIn(thread) at every stop.
@@ -476,13 +480,14 @@ fn stepin_run(prog: &Program, cycles: u32, thread: u32, watchdog: Duration) -> R
     Ok(seq)
 }
 
-fn plain_run(prog: &Program, cycles: u32) -> Result<(String, Runtime), String> {
+fn plain_run(prog: &Program, cycles: u32) -> Result<(String, String, Runtime), String> {
     let mut rt = build(prog)?;
+    let initial = state_text(rt.storage(), false);
     for _ in 0..cycles {
         rt.advance_time(RtDuration::from_millis(10));
         rt.execute_cycle().map_err(|e| format!("plain run: {e:?}"))?;
     }
-    Ok((state_text(rt.storage(), false), rt))
+    Ok((initial, state_text(rt.storage(), false), rt))
 }
 
 // ------------------------------------------------------------------------------------------------
@@ -630,6 +635,7 @@ fn scripted_run(
             Err(Hang) => {
                 out.line("impl hang");
                 out.count("hang");
+                                super::HANGS.fetch_add(1, std::sync::atomic::Ordering::SeqCst);
                 hung = true;
                 break;
             }
@@ -728,6 +734,7 @@ fn scripted_run(
                             Err(Hang) => {
                                 out.line("impl hang");
                                 out.count("hang");
+                                super::HANGS.fetch_add(1, std::sync::atomic::Ordering::SeqCst);
                                 hung = true;
                                 break;
                             }
@@ -762,6 +769,7 @@ fn scripted_run(
                                 out.line("go");
                                 out.line("impl hang");
                                 out.count("hang");
+                                super::HANGS.fetch_add(1, std::sync::atomic::Ordering::SeqCst);
                                 hung = true;
                                 break;
                             }
@@ -859,7 +867,7 @@ pub fn probe(seed: u64) {
     println!("stepin run: {:?}", t0.elapsed());
     println!("--- main.st\n{}\n--- lib.st\n{}", prog.files[0], prog.files[1]);
     match trace_run(&prog, 3, Duration::from_secs(5)) {
-        Ok((trace, fin)) => {
+        Ok((trace, fin, _)) => {
             for (i, t) in trace.iter().enumerate() {
                 let text = &prog.files[t.loc.file_id as usize][t.loc.start as usize..t.loc.end as usize];
                 println!("{i:4} thr={} d={} {} {:?}", opt(t.thread), t.depth, show_loc(Some(t.loc)), text.lines().next().unwrap_or(""));
@@ -873,13 +881,30 @@ pub fn probe(seed: u64) {
 pub fn run_rt_case(n: u64, rng: &mut Rng, watchdog: Duration, all_threads: bool, runs: usize, out: &mut Out) -> Result<(), String> {
     let prog = gen_program(rng);
     let cycles = 2 + rng.below(3) as u32;
-    let (plain, rt) = plain_run(&prog, cycles).map_err(|e| format!("{e}\n{}\n{}", prog.files[0], prog.files[1]))?;
-    let (trace, trace_final) = trace_run(&prog, cycles, watchdog)?;
+    let (initial, plain, rt) = plain_run(&prog, cycles).map_err(|e| format!("{e}\n{}\n{}", prog.files[0], prog.files[1]))?;
     out.line(format!("case {n}"));
     out.line("kind rt");
+    let (trace, trace_final, first_state) = match trace_run(&prog, cycles, watchdog) {
+        Ok(r) => r,
+        Err(e) => {
+            // the debugger misbehaved while the trace was taken (unexpected stop, hang, fault)
+            if e.contains("hang") {
+                super::HANGS.fetch_add(1, std::sync::atomic::Ordering::SeqCst);
+                out.count("hang");
+            }
+            out.line("trace-check");
+            out.line(format!("impl {e}"));
+            out.line("end");
+            return Ok(());
+        }
+    };
     // --- validation of the trace against facts that do not come from DebugControl ----------------
     out.line("# trace acquisition (breakpoint on every statement) vs static facts and per-thread StepIn runs");
     let mut problems: Vec<String> = Vec::new();
+    if !trace.is_empty() && first_state.as_deref() != Some(initial.as_str()) {
+        // the hook runs *before* the statement: at the first stop nothing has been executed yet
+        problems.push("program state at the first stop differs from the initial state".into());
+    }
     if trace_final != plain {
         problems.push("final state of the all-breakpoints run differs from the undebugged run".into());
     }
@@ -909,7 +934,17 @@ pub fn run_rt_case(n: u64, rng: &mut Rng, watchdog: Duration, all_threads: bool,
         vec![threads[rng.below(threads.len() as u64) as usize]]
     };
     for th in &checked {
-        let seq = stepin_run(&prog, cycles, *th, watchdog)?;
+        let seq = match stepin_run(&prog, cycles, *th, watchdog) {
+            Ok(seq) => seq,
+            Err(e) => {
+                if e.contains("hang") {
+                    super::HANGS.fetch_add(1, std::sync::atomic::Ordering::SeqCst);
+                    out.count("hang");
+                }
+                problems.push(e);
+                continue;
+            }
+        };
         let want: Vec<(SourceLocation, u32)> = trace
             .iter()
             .filter(|t| t.thread == Some(*th))
